@@ -20,6 +20,26 @@ pub fn explore<T, S: Eq + std::hash::Hash + Clone>(
     max_keys: u64,
     visit: &mut dyn FnMut(&[u64], T),
 ) -> EnvStats {
+    try_explore(make, sig, max_keys, visit).unwrap_or(EnvStats { builds: 0, environments: 0 })
+}
+
+/// like `explore`, but a panic while building (under any seed script) is returned as Err(message)
+pub fn try_explore<T, S: Eq + std::hash::Hash + Clone>(
+    make: &dyn Fn() -> T,
+    sig: &dyn Fn(&T) -> S,
+    max_keys: u64,
+    visit: &mut dyn FnMut(&[u64], T),
+) -> Result<EnvStats, String> {
+    let r = crate::report::quiet_catch(std::panic::AssertUnwindSafe(|| explore_inner(make, sig, max_keys, visit)));
+    r.map_err(|p| format!("panic while building under a seed script: {p}"))
+}
+
+fn explore_inner<T, S: Eq + std::hash::Hash + Clone>(
+    make: &dyn Fn() -> T,
+    sig: &dyn Fn(&T) -> S,
+    max_keys: u64,
+    visit: &mut dyn FnMut(&[u64], T),
+) -> EnvStats {
     let (_, n_sets) = with_seed_script(&[], make);
     let mut stats = EnvStats { builds: 1, environments: 0 };
     let mut prefix: Vec<u64> = vec![];
